@@ -433,6 +433,13 @@ where
     fn a_no_pending(a: &Value) -> bool {
         a["pend"].as_array().map(|x| x.is_empty()).unwrap_or(true)
     }
+    fn pending_from_a(a: &Value) -> Option<Value> {
+        // top-level pending key removes (the nested values' pending tables are hidden state)
+        Some(crate::eng_orswot::canon_orswot_b(&json!({"deferred": a["pend"]}))["deferred"].clone())
+    }
+    fn pending_of_proj(p: &Value) -> Option<Value> {
+        Some(p["deferred"].clone())
+    }
     fn op_proj(o: &Self::O, d: &Dims) -> Value {
         <Map<u8, V, u8> as MVal>::op_proj(o, d)
     }
